@@ -81,11 +81,12 @@ pub fn conj_atoms() -> Vec<&'static str> {
 pub fn family_c(quick: bool) -> Vec<String> {
     let ca = conj_atoms();
     let pre: Vec<&str> = if quick {
-        vec!["exists X", "exists X$i", "exists X Y", "exists X X$i", "exists X$i Y$i", "forall X"]
+        vec!["exists X", "exists X$i", "exists X Y", "exists X X$i", "exists X$i Y$i", "forall X", "exists X$i X$s"]
     } else {
         vec![
             "exists X", "exists X$i", "exists Y", "exists Y$i", "exists X Y", "exists X X$i",
             "exists X$i Y$i", "exists X$s", "exists X X$s", "forall X", "forall X$i", "exists X Y$i",
+            "exists X$i X$s", "exists X X$i X$s", "forall X$i X$s",
         ]
     };
     let mut out = vec![];
